@@ -35,6 +35,14 @@ Proof.
   split; [lia|]. split; [f_equal; lia|unfold RBUF; lia].
 Qed.
 
+Lemma firstn_clip {A} (l : list A) (n : Z) :
+  firstn (Z.to_nat (Z.min n (len l))) l = firstn (Z.to_nat n) l.
+Proof.
+  destruct (Z_le_gt_dec n (len l)) as [H|H].
+  - rewrite Z.min_l by exact H. reflexivity.
+  - rewrite Z.min_r by lia. rewrite to_nat_len, firstn_all. symmetry. apply firstn_all2. unfold len in H. lia.
+Qed.
+
 Section Refine.
 Variable ch : Z -> Z -> Z -> Z.
 
@@ -52,25 +60,39 @@ Proof.
   { pose proof (rem_length_le disk h). lia. }
   unfold s_read1. rewrite !I1. destruct f as [n| | |]; cbn [iread1] in E.
   - (* count *)
-    destruct (n <? 0) eqn:N0; [injection E as <- <-; reflexivity|].
     destruct (n =? 0) eqn:N1.
     + destruct (peekb ch disk h) as [h1 c] eqn:P. injection E as <- <-.
       destruct (peekb_spec ch disk h h1 c I P) as (A & C & _).
-      assert (n = 0) by lia. subst n. cbn [Z.to_nat firstn].
+      assert (n = 0) by lia. subst n.
       destruct (rem disk h) as [|b t] eqn:ER; cbn [hd_error] in C; subst c.
       * split; [eapply adv_by_Rinv; eauto|]. destruct A as (_ & _ & P0 & _ & _ & SF).
         split; [lia|]. split; [exact SF|left; reflexivity].
-      * split; [eapply adv_by_Rinv; eauto|]. destruct A as (_ & _ & P0 & _ & _ & SF).
+      * change (0 <? 0) with false. cbv iota zeta. rewrite firstn_clip. cbn [Z.to_nat firstn].
+        split; [eapply adv_by_Rinv; eauto|]. destruct A as (_ & _ & P0 & _ & _ & SF).
         split; [len0; lia|]. split; [exact SF|left; reflexivity].
-    + destruct (readSize_spec ch disk _ h n [] I FU) as (h1 & eof & RS & A & EO).
+    + set (want := if n <? 0 then RCHUNK * (len (rbuf h) + len disk + 1) else n) in *.
+      assert (LR : len (rem disk h) <= len (rbuf h) + len disk).
+      { pose proof (rem_length_le disk h). unfold len. lia. }
+      assert (W0 : 0 < want).
+      { unfold want. destruct (n <? 0) eqn:N0; [|lia].
+        pose proof (len_nonneg (rbuf h)). pose proof (len_nonneg disk). unfold RCHUNK. lia. }
+      destruct (readSize_spec ch disk _ h want [] I FU) as (h1 & eof & RS & A & EO).
       rewrite RS in E. injection E as <- <-. cbn [app] in *.
       pose proof A as (_ & _ & P0 & _ & _ & SF).
       destruct (rem disk h) as [|b t] eqn:ER.
       * rewrite firstn_nil in *. len0.
         assert (eof = true) by (apply EO; lia). subst eof.
         split; [eapply adv_by_Rinv; eauto|]. split; [lia|]. split; [exact SF|left; reflexivity].
-      * split; [eapply adv_by_Rinv; eauto|]. split; [exact P0|]. split; [exact SF|left].
-        destruct (Z.to_nat n) eqn:EN; [lia|]. reflexivity.
+      * cbv zeta.
+        assert (FE : firstn (Z.to_nat (if n <? 0 then len (b :: t) else Z.min n (len (b :: t)))) (b :: t)
+                     = firstn (Z.to_nat want) (b :: t)).
+        { unfold want. destruct (n <? 0) eqn:N0.
+          - rewrite to_nat_len, firstn_all. symmetry. apply firstn_all2.
+            pose proof (len_nonneg (rbuf h)). pose proof (len_nonneg disk). unfold RCHUNK, len in *. lia.
+          - apply firstn_clip. }
+        rewrite FE.
+        split; [eapply adv_by_Rinv; eauto|]. split; [exact P0|]. split; [exact SF|left].
+        destruct (Z.to_nat want) eqn:EN; [lia|]. reflexivity.
   - (* line *)
     assert (FL : (length (rem disk h) + 2 <= line_fuel disk h)%nat).
     { unfold line_fuel. pose proof (rem_length_le disk h). lia. }
